@@ -143,6 +143,7 @@ type VC struct {
 	warn     []string
 	unsup    []string
 	globals  []string
+	oblNames map[string]int
 	noname   int
 	specInl  int
 }
@@ -213,10 +214,22 @@ func (vc *VC) name(prefix, sort string, t Term) Term {
 	return c
 }
 
+func (vc *VC) uniq(name string) string {
+	if vc.oblNames == nil {
+		vc.oblNames = map[string]int{}
+	}
+	vc.oblNames[name]++
+	if n := vc.oblNames[name]; n > 1 {
+		return fmt.Sprintf("%s~%d", name, n)
+	}
+	return name
+}
+
 func (vc *VC) oblige(name, kind string, guard, goal Term, src string) {
 	if vc.dry > 0 {
 		return
 	}
+	name = vc.uniq(name)
 	vc.obls = append(vc.obls, &Obligation{Name: name, Kind: kind, NAsserts: len(vc.asserts), NDecls: len(vc.decls), Guard: guard, Goal: goal, Src: src})
 }
 
@@ -224,6 +237,7 @@ func (vc *VC) cover(name string, guard Term, src string) {
 	if vc.dry > 0 {
 		return
 	}
+	name = vc.uniq(name)
 	vc.obls = append(vc.obls, &Obligation{Name: name, Kind: "vacuity", NAsserts: len(vc.asserts), NDecls: len(vc.decls), Guard: guard, Goal: "false", ExpectSat: true, Src: src})
 }
 
